@@ -46,7 +46,13 @@ def _init_wrapper(
     @functools.wraps(original_init)
     def wrapper(self: _SelfT, *args: _P.args, **kwargs: _P.kwargs) -> None:
         original_init(self, *args, **kwargs)
-        journal.record(self, "init", details=details_func(self))
+        try:
+            details = details_func(self)
+        except Exception:  # pylint: disable=broad-exception-caught
+            # The __init__ of a subclass may still be running, so that the object
+            # cannot describe itself yet. Journaling must not make construction fail
+            details = None
+        journal.record(self, "init", details=details)
 
     return wrapper
 
